@@ -909,6 +909,7 @@ def relabel_rules(c, swaps=None):
             (ck.ok if ok else lambda r, w, t: ck.violate(r, w, t, "C17.relabel:%s:%s:key" % (f.pq, v["n"])))("C17.relabel", f.where, "%s: key %s of %s is the index of the entry that is rewritten (indexed entries before the insert: %s)" % (f.name, key, v["n"], sorted(x for x in rew if x)))
         ck.count("processed_sets", len(sets))
         relabel_loops(ck, f, sets, loops)
+        relabel_lambdas(ck, fb, f, sets)
         # rewrite pattern present in both branches of each has_* split
         pats = []
         for b in f.reach():
@@ -984,6 +985,47 @@ def split_balanced(x):
             if d == 0 and i != len(x) - 1:
                 return False
     return d == 0
+
+
+def relabel_lambdas(ck, fb, f, sets):
+    """a local lambda of a swap function that performs the pairwise exchange (assigns one swapped handle where the other
+    was found) is one *pass* per invocation: invoked for the definition of each of the two handles in turn, it rewrites an
+    entry that both definitions list twice, i.e. back to the old value (round 5, C09i) - the same defect as two sequential
+    loops, which the intra-procedural `passes` rule sees"""
+    from .canon import Canon
+    import re
+    pnames = {p["n"] for p in f.d["params"][:2]}
+    HANDLE = ("OpenVolumeMesh::VH", "OpenVolumeMesh::EH", "OpenVolumeMesh::HEH", "OpenVolumeMesh::FH", "OpenVolumeMesh::HFH", "OpenVolumeMesh::CH")
+    cnf = Canon(f)
+    for g in fb.fns.values():
+        if g.kind != "lambda" or g.d.get("lambda_parent") != f.id or not g.has_cfg:
+            continue
+        cg = Canon(g)
+        targets = set()
+        for b, i, x in g.tops():
+            if b not in g.reach():
+                continue
+            a = as_assign(x)
+            if not a:
+                continue
+            l = unwrap(g.resolve(a[0]))
+            t = (l.get("t") or l.get("rt") or "") if isinstance(l, dict) else ""
+            r = cg.s(a[1]).strip()
+            r = re.sub(r"\.u?idx\(\)$", "", r)
+            if any(h in t for h in HANDLE) and r in pnames:
+                targets.add(r)
+        if len(targets) < 2:
+            continue
+        tag = "[lambda@%d]" % g.line
+        calls = [(b, i, x) for b, i, x in f.tops() if b in f.reach() and cnf.s(x).lstrip("(").startswith(tag + " ()")]
+        inloop = [c_ for c_ in calls if any(c_[0] in body for hdr, body, backs in f.loops())]
+        if len(calls) >= 2 or inloop:
+            if sets:
+                ck.cannot_judge("C17.relabel %s: %s: an exchanging lambda is invoked more than once together with a processed set (unknown protocol)" % (f.loc(calls[0][2]), f.name))
+            else:
+                ck.violate("C17.relabel", f.loc(calls[-1][2]), "%s: the pairwise exchange of the two handles is performed by a lambda (line %d) that is invoked %d time(s)%s - one pass per definition: an entry listed by both definitions is rewritten by the first pass and rewritten back by the second" % (f.name, g.line, len(calls), " inside a loop" if inloop else ""), "C17.relabel:%s:passes" % f.pq)
+        elif calls:
+            ck.ok("C17.relabel", f.loc(calls[0][2]), "%s: the exchanging lambda (line %d) is invoked once, outside every loop" % (f.name, g.line))
 
 
 def relabel_loops(ck, f, sets, loops):
